@@ -15,12 +15,12 @@ def main():
     m = dict(
         version=1,
         setup_cmd="./check setup",
-        hooks=dict(guard="cargo feature verif-hooks", enable="harness/Cargo.toml: flute = { path = \"/repo\", features = [\"verif-hooks\"] }",
+        hooks=dict(guard="cargo feature verif-hooks", enable="harness/engines/<eng>/Cargo.toml (one stand-alone package per engine): flute = { path = \"/repo\", features = [\"verif-hooks\"] }",
                    baseline_off_cmd="cd /repo && cargo test --workspace --no-fail-fast --offline",
                    source_commits=hooks_commits, add_only=True),
         engines=[
-            dict(name="lean-model", path="lean/", serves_properties=sorted(CLAIMED), kind_free_text="Lean 4 executable model, specs, theorems (lake project, no Mathlib in model files), compiled line-protocol driver flute_model"),
-            dict(name="rust-harness", path="harness/", serves_properties=sorted(CLAIMED), kind_free_text="Rust crate linking /repo with feature verif-hooks: seeded generators, drivers running the real code in-process, per-property oracles"),
+            dict(name="lean-model", path="lean/", serves_properties=sorted(CLAIMED), kind_free_text="Lean 4 executable model, specs, theorems (lake project, no Mathlib in model files), one compiled line-protocol driver per engine (lean_exe drv_<eng>)"),
+            dict(name="rust-harness", path="harness/", serves_properties=sorted(CLAIMED), kind_free_text="one stand-alone Rust package per engine (harness/engines/<eng>, shared harness/core) linking /repo with feature verif-hooks: seeded generators, drivers running the real code in-process, per-property oracles"),
         ],
         checks=[],
         notes="Every check: (1) lake build of the property's theorem module + axiom audit (#audit_ns), (2) cargo build of the harness against /repo's working tree, "
